@@ -45,6 +45,8 @@ def variants(algo, tier):
         # second tensor-algebra implementation (tl.tenalg backend 'einsum'): a configuration like any other
         out.append(("einsum-normalize", {"init": "random", "normalize_factors": True, "tenalg": "einsum"}, 3 if q else 6, False))
         out.append(("einsum-mask", {"init": "svd", "mask": "MASK", "tenalg": "einsum"}, 3 if q else 5, True))
+        out.append(("verbose-linesearch", {"init": "random", "linesearch": True, "verbose": 2}, 9 if q else 11, False))
+        out.append(("class-normalize", {"init": "svd", "normalize_factors": True, "api": "class"}, 3 if q else 5, False))
     elif algo == "non_negative_parafac":
         for init in ("svd", "random"):
             out.append((f"plain-{init}", {"init": init}, 3 if q else 6, False))
@@ -55,6 +57,7 @@ def variants(algo, tier):
         out.append(("plain-random", {"init": "random"}, 3 if q else 5, False))
         out.append(("normalize", {"init": "random", "normalize_factors": True}, 2 if q else 5, False))
         out.append(("einsum-normalize", {"init": "random", "normalize_factors": True, "tenalg": "einsum"}, 2 if q else 4, False))
+        out.append(("verbose-class", {"init": "random", "verbose": True, "api": "class"}, 2 if q else 4, False))
         out.append(("sparsity", {"init": "svd", "sparsity_coefficients": "PERMODE:0.1"}, 2 if q else 5, False))
         out.append(("fixed-last", {"init": "random", "fixed_modes": "LAST"}, 2 if q else 4, False))
         out.append(("fixed-last-normalize", {"init": "random", "fixed_modes": "LAST", "normalize_factors": True}, 2 if q else 4, False))
@@ -74,6 +77,7 @@ def variants(algo, tier):
         out.append(("svd", {"init": "svd"}, 4 if q else 8, False))
         out.append(("random", {"init": "random"}, 4 if q else 8, False))
         out.append(("einsum-random", {"init": "random", "tenalg": "einsum"}, 3 if q else 5, False))
+        out.append(("verbose", {"init": "svd", "verbose": True}, 3 if q else 5, False))
         # (HOOI reports sqrt(|norm^2 - ||core||^2|) also when masked: the shortcut class, sqrt(eps)-accurate on exact fits)
         out.append(("mask", {"init": "random", "mask": "MASK"}, 3 if q else 5, False))
     elif algo == "non_negative_tucker":
@@ -93,6 +97,7 @@ def variants(algo, tier):
         out.append(("linesearch", {"init": "random", "linesearch": True}, 9 if q else 13, False))
         out.append(("uneven-slices", {"init": "random", "linesearch": False, "slices": "UNEVEN"}, 3 if q else 5, False))
         out.append(("einsum-normalize", {"init": "random", "linesearch": False, "normalize_factors": True, "tenalg": "einsum"}, 3 if q else 4, False))
+        out.append(("verbose-linesearch", {"init": "random", "linesearch": True, "verbose": True}, 9 if q else 11, False))
     elif algo == "tensor_ring_als":
         out.append(("lstsq", {"ls_solve": "lstsq"}, 3 if q else 6, True))
         out.append(("normal_eq", {"ls_solve": "normal_eq"}, 3 if q else 6, True))
